@@ -21,6 +21,8 @@ fn tmp() -> String {
 #[derive(Clone, Debug, PartialEq)]
 pub struct Cfg {
     pub lens: Vec<u64>,
+    /// 0 = every line is valid; otherwise line i of file k is not JSON iff (7 * i + 3 * k) % bad == 0
+    pub bad: u64,
     pub strategy: u64,
     pub seed: u64,
     pub epoch: u64,
@@ -39,14 +41,23 @@ pub struct Cfg {
     pub world: u64,
 }
 
-fn files(lens: &[u64]) -> Vec<String> {
+fn is_bad(bad: u64, k: u64, i: u64) -> bool {
+    bad > 0 && (7 * i + 3 * k) % bad == 0
+}
+
+fn files(lens: &[u64], bad: u64) -> Vec<String> {
     let dir = tmp();
     let mut v = vec![];
     for (k, &n) in lens.iter().enumerate() {
-        let path = format!("{dir}/src-{k}-{n}.jsonl");
+        let path = format!("{dir}/src-{k}-{n}-{bad}.jsonl");
         if !std::path::Path::new(&path).exists() {
             let mut f = std::fs::File::create(&path).unwrap();
             for i in 0..n {
+                if is_bad(bad, k as u64, i) {
+                    // a line that does not parse: the loader drops it (with a warning) but it keeps its global index
+                    writeln!(f, "this line is not json").unwrap();
+                    continue;
+                }
                 // the first word carries the identity; the rest gives the corruptions something to work on
                 writeln!(f, "{{\"input\": \"{k}x{i} the quick brown fox jumps over a lazy dog\"}}").unwrap();
             }
@@ -106,12 +117,28 @@ fn strat(s: u64) -> GenerationStrategy {
 
 /// the global order of the items (mirror of the generator the loader builds: seed + epoch)
 fn global_order(c: &Cfg) -> Result<Vec<(u64, u64)>, String> {
-    let gens = files(&c.lens).iter().map(train_data_generator_from_jsonl).collect::<anyhow::Result<Vec<_>>>().map_err(|e| e.to_string())?;
+    let gens = files(&c.lens, c.bad).iter().map(train_data_generator_from_jsonl).collect::<anyhow::Result<Vec<_>>>().map_err(|e| e.to_string())?;
     let g = MultiTrainDataGenerator::new(gens, strat(c.strategy), Some(c.seed + c.epoch)).map_err(|e| e.to_string())?;
     let mut out = vec![];
+    // every source is read in order, so the k-th item tagged with a source is its k-th line (also for lines that fail
+    // to parse, which arrive as Err)
+    let mut seen = vec![0u64; c.lens.len()];
     for (item, src) in g {
-        let item = item.map_err(|e| e.to_string())?;
-        let k: u64 = item.verif_input().split(' ').next().and_then(|w| w.split('x').nth(1)).and_then(|x| x.parse().ok()).ok_or("bad item")?;
+        let k = seen[src];
+        seen[src] += 1;
+        match item {
+            Ok(item) => {
+                let kk: u64 = item.verif_input().split(' ').next().and_then(|w| w.split('x').nth(1)).and_then(|x| x.parse().ok()).ok_or("bad item")?;
+                if kk != k || is_bad(c.bad, src as u64, k) {
+                    return Err("generator mirror: item is not the k-th line of its source".into());
+                }
+            }
+            Err(_) => {
+                if !is_bad(c.bad, src as u64, k) {
+                    return Err("generator mirror: a valid line failed to parse".into());
+                }
+            }
+        }
         out.push((src as u64, k));
     }
     Ok(out)
@@ -136,9 +163,16 @@ pub struct RunOut {
 }
 
 pub fn run_loader(c: &Cfg, order: &[(u64, u64)]) -> Result<RunOut, String> {
+    run_loader_with(c, order, false)
+}
+
+/// `reused`: the loader object has already been iterated (another epoch and fast-forward offset, a few batches
+/// taken, the iteration abandoned) before it is set to the requested epoch / offset and iterated again, as a
+/// training loop does
+pub fn run_loader_with(c: &Cfg, order: &[(u64, u64)], reused: bool) -> Result<RunOut, String> {
     let pos: BTreeMap<(u64, u64), u64> = order.iter().enumerate().map(|(i, p)| (*p, i as u64)).collect();
     let mut l = VerifTrainLoader::from_files(
-        files(&c.lens),
+        files(&c.lens, c.bad),
         pipeline(c.prep),
         strat(c.strategy),
         c.threads as u8,
@@ -155,6 +189,16 @@ pub fn run_loader(c: &Cfg, order: &[(u64, u64)]) -> Result<RunOut, String> {
         Some((c.rank as usize, c.world as usize)),
     )
     .map_err(|e| e.to_string())?;
+    if reused {
+        l.set_epoch(c.epoch as usize + 1);
+        l.set_fast_forward(1);
+        l.iter().map_err(|e| e.to_string())?;
+        for _ in 0..2 {
+            if l.next_batch().map_err(|e| e.to_string())?.is_none() {
+                break;
+            }
+        }
+    }
     l.set_epoch(c.epoch as usize);
     l.set_fast_forward(c.ff as usize);
     l.iter().map_err(|e| e.to_string())?;
@@ -188,15 +232,16 @@ fn rd_cfg(r: &mut Rd) -> R<Cfg> {
     let rank = r.nat()?;
     let world = r.nat()?;
     let rest = r.nats()?;
-    if rest.len() < 11 {
+    if rest.len() < 12 {
         return Err("short config".into());
     }
-    let lens = rest[11..].to_vec();
+    let lens = rest[12..].to_vec();
     if lens.iter().sum::<u64>() != n {
         return Err("N is not the total number of lines".into());
     }
     Ok(Cfg {
         lens,
+        bad: rest[11],
         strategy: rest[0],
         seed: rest[1],
         epoch: rest[2],
@@ -223,7 +268,7 @@ fn enc_cfg(c: &Cfg) -> Vec<u64> {
         None => v.push(0),
     }
     v.extend([c.ff, c.rank, c.world]);
-    let mut rest = vec![c.strategy, c.seed, c.epoch, c.threads, c.buffer, c.sort as u64, c.shuffle as u64, c.prefetch, c.batch_limit, c.padded as u64, c.prep];
+    let mut rest = vec![c.strategy, c.seed, c.epoch, c.threads, c.buffer, c.sort as u64, c.shuffle as u64, c.prefetch, c.batch_limit, c.padded as u64, c.prep, c.bad];
     rest.extend(c.lens.iter().copied());
     enc_nats(&mut v, rest);
     v
@@ -238,11 +283,16 @@ pub fn exec(op: &str, a: &[u64]) -> Result<Outcome, String> {
     }
     let mut r = Rd::new(a);
     let c = rd_cfg(&mut r)?;
+    let invalid_req = r.nats()?;
     r.end()?;
     if c.world == 0 || c.rank >= c.world {
         return Err("bad rank / world size".into());
     }
     let order = global_order(&c)?;
+    // the global indices of the lines that do not parse (they keep their index but are never delivered)
+    if invalid_req != invalid_indices(&c, &order) {
+        return Err("invalid-line indices in the request are not those of the generated files".into());
+    }
     let base = run_loader(&c, &order)?;
     let mut idx: Vec<u64> = base.batches.iter().flatten().map(|x| x.0).collect();
     let delivered = idx.clone();
@@ -265,9 +315,20 @@ pub fn exec(op: &str, a: &[u64]) -> Result<Outcome, String> {
         }
     }
     // restart: the uninterrupted single-process stream after its first ff items (same order without shuffling)
+    // fast_forward(k): the code skips k LINES (global indices), the property speaks of the first k ITEMS of the
+    // uninterrupted stream.  The two differ exactly when a line that does not parse lies among the skipped ones
+    // (known finding F17); everything else is checked with the line semantics, which is what the code implements.
+    let first = c.skip + c.ff;
+    let ff_skips_invalid = invalid_req.iter().any(|&i| i >= c.skip && i < first && c.limit.map(|l| i < l).unwrap_or(true));
+    let want_lines: Vec<u64> = ref_order.iter().filter(|&&gi| gi >= first).copied().collect();
+    let want_items: Vec<u64> = ref_order.iter().skip(c.ff as usize).copied().collect();
     if c.world == 1 && !c.sort && !c.shuffle {
-        let want: Vec<u64> = ref_order.iter().skip(c.ff as usize).copied().collect();
-        o.check(delivered == want, "fast_forward(k) does not yield the uninterrupted stream after its first k items in the same order");
+        o.check(delivered == want_lines, "fast_forward(k) does not yield the uninterrupted stream after its first k lines in the same order");
+        if ff_skips_invalid {
+            o.check(delivered == want_items, "F17 fast_forward(k) skips k lines, not k delivered items: a line that does not parse lies among the skipped ones, so items the uninterrupted stream had already delivered are delivered again");
+        } else {
+            o.check(delivered == want_items, "fast_forward(k) does not yield the uninterrupted stream after its first k items in the same order");
+        }
     }
     // all ranks together: disjoint, union = the single-process stream after ff
     if c.rank == 0 && c.world > 1 {
@@ -280,13 +341,23 @@ pub fn exec(op: &str, a: &[u64]) -> Result<Outcome, String> {
         all.sort();
         all.dedup();
         o.check(all.len() == n_all, "per-rank streams overlap");
-        let want: Vec<u64> = ref_order.iter().skip(c.ff as usize).copied().collect();
-        o.check(all == want, "union of the per-rank streams is not the single-process stream restricted by skip, limit and fast-forward");
+        let mut wl = want_lines.clone();
+        wl.sort();
+        o.check(all == wl, "union of the per-rank streams is not the single-process stream restricted by skip, limit and fast-forward");
+        let mut wi = want_items.clone();
+        wi.sort();
+        if ff_skips_invalid {
+            o.check(all == wi, "F17 fast_forward(k) skips k lines, not k delivered items: a line that does not parse lies among the skipped ones, so items the uninterrupted stream had already delivered are delivered again");
+        } else {
+            o.check(all == wi, "union of the per-rank streams is not the uninterrupted stream after its first k items");
+        }
     }
     // a second, independently constructed loader and other thread counts / buffer sizes: identical batch sequences
     let as_ids = |r: &RunOut| r.batches.iter().map(|b| b.iter().map(|x| (x.0, x.2.clone())).collect::<Vec<_>>()).collect::<Vec<_>>();
     let again = run_loader(&c, &order)?;
     o.check(as_ids(&again) == as_ids(&base), "two loaders with the same configuration produce different items or batches");
+    let reused = run_loader_with(&c, &order, true)?;
+    o.check(as_ids(&reused) == as_ids(&base), "a loader that was iterated before (another epoch, abandoned) produces different items or batches than a fresh one");
     for (t, b) in [(0u64, 0u64), (1, 1), (3, 4)] {
         if (t, b) != (c.threads, c.buffer) {
             let other = run_loader(&Cfg { threads: t, buffer: b, ..c.clone() }, &order)?;
@@ -295,6 +366,18 @@ pub fn exec(op: &str, a: &[u64]) -> Result<Outcome, String> {
     }
     o.check(base.min_items.is_some(), "min_items not set");
     Ok(o)
+}
+
+fn invalid_indices(c: &Cfg, order: &[(u64, u64)]) -> Vec<u64> {
+    order.iter().enumerate().filter(|(_, (src, k))| is_bad(c.bad, *src, *k)).map(|(i, _)| i as u64).collect()
+}
+
+/// the request: configuration + the global indices of the unparseable lines
+fn enc_select(c: &Cfg) -> Vec<u64> {
+    let mut v = enc_cfg(c);
+    let inv = global_order(c).map(|o| invalid_indices(c, &o)).unwrap_or_default();
+    enc_nats(&mut v, inv);
+    v
 }
 
 fn rand_cfg(ctx: &mut Ctx) -> Cfg {
@@ -320,6 +403,8 @@ fn rand_cfg(ctx: &mut Ctx) -> Cfg {
         ff: ctx.rng.random_range(0..=4),
         rank: ctx.rng.random_range(0..world),
         world,
+        // a third of the configurations have lines that do not parse (incl. first lines, split points)
+        bad: [0u64, 0, 0, 0, 2, 3, 5][ctx.rng.random_range(0..7)],
         lens,
     }
 }
@@ -329,7 +414,7 @@ pub fn run_c08(ctx: &mut Ctx) {
     let n = ctx.budget(40, 1500);
     for _ in 0..n {
         let c = rand_cfg(ctx);
-        ctx.case("select", &enc_cfg(&c));
+        ctx.case("select", &enc_select(&c));
         // the batch sequence of this loader, replayed by the C06 model: items in delivery order of the pipeline
         // (= selection order), sizes = item sizes, same batching configuration and seed
         if let Ok(order) = global_order(&c) {
